@@ -8,14 +8,14 @@ theorem step_ik_hit (strict : Bool) (s : State) (op : Op) (l : Log)
     (hh : ¬ (l.ihash ≠ "" ∧ l.ihash ≠ op.ihash)) :
     step strict s op = (s, { hit := true, log := some l }) := by
   unfold step forgeLog
-  simp only [fires, ikLookup, if_neg hk, run, exec, hf, if_neg hh, rolledBack]
+  simp only [fires_nil, ikLookup, if_neg hk, run, exec, hf, if_neg hh, rolledBack]
 
 theorem step_ik_mismatch (strict : Bool) (s : State) (op : Op) (l : Log)
     (hk : op.ik ≠ "") (hf : readLogWithIK op.ik s.db = some l)
     (hh : l.ihash ≠ "" ∧ l.ihash ≠ op.ihash) :
     step strict s op = (s, { err := some .invalidIdempotencyInput }) := by
   unfold step forgeLog
-  simp only [fires, ikLookup, if_neg hk, run, exec, hf, if_pos hh, rolledBack]
+  simp only [fires_nil, ikLookup, if_neg hk, run, exec, hf, if_pos hh, rolledBack]
 
 /-- A committed step: the journal grew by exactly the answered log. -/
 theorem step_committed_appended (strict : Bool) (s : State) (op : Op)
@@ -23,7 +23,7 @@ theorem step_committed_appended (strict : Bool) (s : State) (op : Op)
     ∃ log, (step strict s op).2.log = some log ∧ (step strict s op).1.db.logs = s.db.logs ++ [log] ∧
       log.ik = op.ik ∧ log.ihash = op.ihash ∧ log.schemaVersion = op.sv ∧ log.date = op.now := by
   unfold step at *
-  rcases forgeLog_ending strict op none false s with ⟨_, _, why⟩ | ⟨st0, st, log, hn, f', n, _, h0, _, hrun, hc⟩
+  rcases forgeLog_ending strict op [] false s with ⟨_, _, why⟩ | ⟨st0, st, log, hn, f', n, _, h0, _, hrun, hc⟩
   · exfalso
     rcases why with w | w | w
     · simp only [Resp.isError] at he; rw [he] at w; exact Bool.false_ne_true w
@@ -31,9 +31,9 @@ theorem step_committed_appended (strict : Bool) (s : State) (op : Op)
     · rw [hd] at w; exact Bool.false_ne_true w
   · have ha := run_runLog_ok op.now hn f' strict op.kind op.ik op.ihash op.sv n st0 st log hrun
     refine ⟨log, ?_, ?_, ha.ik, ha.ihash, ha.sv, ha.date⟩
-    · show (forgeLog strict op none false s).resp.log = some log
+    · show (forgeLog strict op [] false s).resp.log = some log
       rw [hc.2]
-    · show (forgeLog strict op none false s).state.db.logs = s.db.logs ++ [log]
+    · show (forgeLog strict op [] false s).state.db.logs = s.db.logs ++ [log]
       rw [hc.1, ← h0]; exact ha.logs
 
 /-- Anything else leaves the journal as it is. -/
@@ -41,14 +41,14 @@ theorem step_not_committed_logs (strict : Bool) (s : State) (op : Op)
     (h : (step strict s op).2.isError = true ∨ (step strict s op).2.hit = true ∨ op.dry = true) :
     (step strict s op).1.db.logs = s.db.logs := by
   unfold step at *
-  rcases forgeLog_ending strict op none false s with ⟨hu, _, _⟩ | ⟨st0, st, log, hn, f', n, hd, _, _, _, hc⟩
-  · show (forgeLog strict op none false s).state.db.logs = s.db.logs
+  rcases forgeLog_ending strict op [] false s with ⟨hu, _, _⟩ | ⟨st0, st, log, hn, f', n, hd, _, _, _, hc⟩
+  · show (forgeLog strict op [] false s).state.db.logs = s.db.logs
     rw [hu]
   · exfalso
     rcases h with w | w | w
-    · have : (forgeLog strict op none false s).resp.isError = false := by rw [hc.2]; rfl
+    · have : (forgeLog strict op [] false s).resp.isError = false := by rw [hc.2]; rfl
       simp only at w; rw [this] at w; exact Bool.false_ne_true w
-    · have : (forgeLog strict op none false s).resp.hit = false := by rw [hc.2]
+    · have : (forgeLog strict op [] false s).resp.hit = false := by rw [hc.2]
       simp only at w; rw [this] at w; exact Bool.false_ne_true w
     · rw [hd] at w; exact Bool.false_ne_true w
 
